@@ -91,6 +91,34 @@ Section Slice.
   Qed.
 End Slice.
 
+(* ------------------------------------------------------------------ per-pixel grids then cbca: the leak *)
+
+(* "a volume that differs from this one by NaN at OTHER pixels aggregates to the same cost at this pixel":
+   false; 3 x 3 flat images (one 9-pixel region), costs r + c, the cost of the neighbour (1, 0) masked *)
+Definition cbca_grid_inside_full : Prop :=
+  forall (x : cbca_in) cv' k r c,
+    1 <= i_subpix x -> 0 <= i_off x ->
+    0 <= k < n_disp x -> 0 <= r < i_nr x -> 0 <= c < i_nc x ->
+    (forall r' c', cv' k r' c' = i_cv x k r' c' \/ cv' k r' c' = None) ->
+    cv' k r c = i_cv x k r c ->
+    out_at (with_volume x (i_disps x) cv') k r c = out_at x k r c.
+
+Definition leak_in : cbca_in :=
+  mkIn 3 3 0 1 2 (5 # 1) (fun _ _ => Some 10%Q) None 0 (fun _ _ _ => Some 10%Q) None 0 [0%Q]
+       (fun _ r c => Some (inject_Z (r + c))).
+Definition leak_cv : Z -> Z -> Z -> option Q :=
+  fun _ r c => if (r =? 1) && (c =? 0) then None else Some (inject_Z (r + c)).
+
+Lemma cbca_grid_inside_refuted : ~ cbca_grid_inside_full.
+Proof.
+  intros H. specialize (H leak_in leak_cv 0 1 1).
+  assert (E : out_at (with_volume leak_in (i_disps leak_in) leak_cv) 0 1 1 = out_at leak_in 0 1 1).
+  { apply H; try (vm_compute; intuition congruence).
+    intros r' c'. unfold leak_cv, leak_in. cbn [i_cv].
+    destruct ((r' =? 1) && (c' =? 0)); [now right|now left]. }
+  vm_compute in E. discriminate.
+Qed.
+
 (* ------------------------------------------------------------------ composed with the matching-cost model *)
 From Pandora Require Model.MatchingCost Model.Interval Proofs.MatchingCostP Proofs.IntervalP.
 
